@@ -25,20 +25,25 @@
 //! EOF at a frame boundary ends the stream cleanly, EOF inside a length prefix or a body yields an
 //! error; the bytes accepted by the socket are at all times a prefix of
 //! len16(m1) m1 len16(m2) m2 ...; from every state a fair continuation delivers everything
-//! (all messages yielded, all bytes accepted and flushed).
+//! (all messages yielded, all bytes accepted and flushed). Wake-ups: the task's waker records
+//! wake-ups; the socket wakes the waker it was handed when it answered Pending once that side is
+//! ready, the handle's channel wakes on send. Whenever the machine returns Pending while progress is
+//! possible (handed-over bytes not yet accepted / flushed, inbound bytes not yet delivered) and no
+//! wake-up is pending, that is `lost-wakeup:<handle|write|flush|read>` (a self-wake or a spurious
+//! wake-up is always fine). Run-to-completion is wake-driven: the machine is polled only after an
+//! item or after a wake-up.
 
 use std::collections::HashSet;
 use std::io;
 use std::net::SocketAddr;
 use std::pin::Pin;
-use std::sync::atomic::Ordering;
+use std::sync::atomic::{AtomicUsize, Ordering};
 use std::sync::{Arc, Mutex};
-use std::task::{Context, Poll};
+use std::task::{Context, Poll, Wake, Waker};
 use std::time::Duration;
 
 use futures_io::{AsyncRead, AsyncWrite, IoSlice};
 use futures_util::stream::Stream;
-use futures_util::task::noop_waker;
 use hickory_net::runtime::{DnsTcpStream, TokioTime};
 use hickory_net::tcp::{TcpClientStream, TcpStream};
 use hickory_net::{BufDnsStreamHandle, DnsStreamHandle};
@@ -143,6 +148,11 @@ struct Shared {
     /// 0 = the last answer made progress; 1/2 = Pending / I/O error at a read; 3/4 at a write; 5/6 at a flush
     nonprogress: u8,
     bad_script: Option<String>,
+    /// the waker handed to the last call that was answered Pending, per side; cleared by any
+    /// other answer on that side, taken and woken when the environment makes the side ready
+    read_waker: Option<Waker>,
+    write_waker: Option<Waker>,
+    flush_waker: Option<Waker>,
 }
 
 impl Shared {
@@ -167,11 +177,12 @@ fn sim_err() -> io::Error {
 }
 
 impl AsyncRead for SimTcp {
-    fn poll_read(self: Pin<&mut Self>, _cx: &mut Context<'_>, buf: &mut [u8]) -> Poll<io::Result<usize>> {
+    fn poll_read(self: Pin<&mut Self>, cx: &mut Context<'_>, buf: &mut [u8]) -> Poll<io::Result<usize>> {
         let mut s = self.0.lock().unwrap();
         if s.frozen.is_some() {
             return Poll::Pending;
         }
+        s.read_waker = None;
         if buf.is_empty() {
             // what every conforming reader does for an empty buffer; no decision involved
             s.flags |= F_ZERO_BUF_READ;
@@ -189,6 +200,7 @@ impl AsyncRead for SimTcp {
                 Some(chunk) if max > 0 => Choice::N(max.min(chunk) as u32),
                 Some(_) => {
                     s.flags |= F_IDLE | F_READ_PENDING;
+                    s.read_waker = Some(cx.waker().clone());
                     return Poll::Pending;
                 }
                 None => {
@@ -201,6 +213,7 @@ impl AsyncRead for SimTcp {
             Choice::Pending => {
                 s.flags |= F_READ_PENDING;
                 s.nonprogress = 1;
+                s.read_waker = Some(cx.waker().clone());
                 Poll::Pending
             }
             Choice::N(n) if n >= 1 && (n as usize) <= max => {
@@ -232,11 +245,12 @@ impl AsyncRead for SimTcp {
 }
 
 impl SimTcp {
-    fn write(&self, bufs: &[&[u8]], vectored: bool) -> Poll<io::Result<usize>> {
+    fn write(&self, cx: &mut Context<'_>, bufs: &[&[u8]], vectored: bool) -> Poll<io::Result<usize>> {
         let mut s = self.0.lock().unwrap();
         if s.frozen.is_some() {
             return Poll::Pending;
         }
+        s.write_waker = None;
         let offered: usize = bufs.iter().map(|b| b.len()).sum();
         if offered == 0 {
             // nothing offered: Ok(0) is the only possible answer, no decision
@@ -256,6 +270,7 @@ impl SimTcp {
             Choice::Pending => {
                 s.flags |= F_WRITE_PENDING;
                 s.nonprogress = 3;
+                s.write_waker = Some(cx.waker().clone());
                 Poll::Pending
             }
             Choice::N(n) if n >= 1 && (n as usize) <= offered => {
@@ -291,18 +306,19 @@ impl SimTcp {
 }
 
 impl AsyncWrite for SimTcp {
-    fn poll_write(self: Pin<&mut Self>, _cx: &mut Context<'_>, buf: &[u8]) -> Poll<io::Result<usize>> {
-        self.write(&[buf], false)
+    fn poll_write(self: Pin<&mut Self>, cx: &mut Context<'_>, buf: &[u8]) -> Poll<io::Result<usize>> {
+        self.write(cx, &[buf], false)
     }
-    fn poll_write_vectored(self: Pin<&mut Self>, _cx: &mut Context<'_>, bufs: &[IoSlice<'_>]) -> Poll<io::Result<usize>> {
+    fn poll_write_vectored(self: Pin<&mut Self>, cx: &mut Context<'_>, bufs: &[IoSlice<'_>]) -> Poll<io::Result<usize>> {
         let v: Vec<&[u8]> = bufs.iter().map(|b| &b[..]).collect();
-        self.write(&v, true)
+        self.write(cx, &v, true)
     }
-    fn poll_flush(self: Pin<&mut Self>, _cx: &mut Context<'_>) -> Poll<io::Result<()>> {
+    fn poll_flush(self: Pin<&mut Self>, cx: &mut Context<'_>) -> Poll<io::Result<()>> {
         let mut s = self.0.lock().unwrap();
         if s.frozen.is_some() {
             return Poll::Pending;
         }
+        s.flush_waker = None;
         let c = match s.next() {
             Some(c) => c,
             None => match s.auto_chunk {
@@ -322,6 +338,7 @@ impl AsyncWrite for SimTcp {
             Choice::Pending => {
                 s.flags |= F_FLUSH_PENDING;
                 s.nonprogress = 5;
+                s.flush_waker = Some(cx.waker().clone());
                 Poll::Pending
             }
             Choice::IoErr => {
@@ -409,6 +426,8 @@ struct Inst {
     out_boundaries: Arc<Vec<usize>>,
     max_errors: u8,
     allow_drop: bool,
+    /// wake-driven family: the driver may poll only after an item, or when the task was woken
+    wake_driven: bool,
 }
 
 impl Inst {
@@ -438,7 +457,7 @@ impl Inst {
             p += 2 + m.len();
             b.push(p);
         }
-        Inst { label, wrapper, inbound: Arc::new(inbound), in_frames, zero_at, out_msgs, out_image, out_boundaries: Arc::new(b), max_errors, allow_drop }
+        Inst { label, wrapper, inbound: Arc::new(inbound), in_frames, zero_at, out_msgs, out_image, out_boundaries: Arc::new(b), max_errors, allow_drop, wake_driven: false }
     }
     fn to_json(&self) -> Value {
         json!({
@@ -448,6 +467,7 @@ impl Inst {
             "out_lens": self.out_msgs.iter().map(|m| m.len()).collect::<Vec<_>>(),
             "max_errors": self.max_errors,
             "allow_drop": self.allow_drop,
+            "wake_driven": self.wake_driven,
         })
     }
     fn from_json(v: &Value) -> Inst {
@@ -466,6 +486,11 @@ impl Inst {
             v["max_errors"].as_u64().unwrap_or(1) as u8,
             v["allow_drop"].as_bool().unwrap_or(false),
         )
+        .wake(v["wake_driven"].as_bool().unwrap_or(false))
+    }
+    fn wake(mut self, on: bool) -> Inst {
+        self.wake_driven = on;
+        self
     }
     /// number of reference messages completely contained in inbound[..consumed]
     fn complete_frames(&self, consumed: usize) -> usize {
@@ -495,6 +520,8 @@ struct RunOut {
     /// 0 running, 1 ended (None), 2 error at EOF
     terminal: u8,
     violated: bool,
+    /// wake-driven family only: the driver may poll now (an item was just returned, or a wake-up is pending)
+    can_poll: bool,
 }
 
 fn classify_yield(got: &[u8], inst: &Inst, idx: usize, complete: usize, prev: Option<&Vec<u8>>) -> Option<(String, String)> {
@@ -537,6 +564,58 @@ fn handed_len(inst: &Inst, enq: usize) -> usize {
     if enq == 0 { 0 } else { inst.out_boundaries[enq - 1] }
 }
 
+/// The task's waker: counts wake-ups.
+struct WakeCount(AtomicUsize);
+
+impl Wake for WakeCount {
+    fn wake(self: Arc<Self>) {
+        self.0.fetch_add(1, Ordering::SeqCst);
+    }
+    fn wake_by_ref(self: &Arc<Self>) {
+        self.0.fetch_add(1, Ordering::SeqCst);
+    }
+}
+
+/// Called when the machine has returned Pending (or a message was handed over while it is
+/// Pending). The environment makes every side ready on which it answered Pending (wakes the waker
+/// stored there; the read side only if it still has something to deliver). Returns whether a
+/// wake-up of the task is pending (counted since the start of the last poll; self-wakes and the
+/// handle's channel wake count too) and, if none is, the side on which progress is nevertheless
+/// possible: the machine would then sleep forever under a real executor.
+fn wake_check(shared: &Arc<Mutex<Shared>>, wc: &Arc<WakeCount>, seen: usize, inst: &Inst, enq: usize, auto: bool) -> (bool, Option<&'static str>) {
+    let (wakers, remaining, acc, flushed_cur) = {
+        let mut s = shared.lock().unwrap();
+        let remaining = s.inbound.len() - s.consumed;
+        let exhausted = s.pos >= s.script.len();
+        let mut w = vec![];
+        // more bytes, or (while the script still decides) EOF / an error can be delivered
+        if remaining > 0 || !(auto && exhausted) {
+            w.extend(s.read_waker.take());
+        }
+        w.extend(s.write_waker.take());
+        w.extend(s.flush_waker.take());
+        (w, remaining, s.accepted.len(), s.flushed_at == Some(s.accepted.len()))
+    };
+    for w in wakers {
+        w.wake();
+    }
+    if wc.0.load(Ordering::SeqCst) != seen {
+        return (true, None);
+    }
+    let handed = handed_len(inst, enq);
+    let side = if acc < handed {
+        // handed-over data the socket would accept
+        Some(if acc == 0 || inst.out_boundaries.contains(&acc) { "handle" } else { "write" })
+    } else if acc > 0 && !flushed_cur {
+        Some("flush")
+    } else if remaining > 0 {
+        Some("read")
+    } else {
+        None
+    };
+    (false, side)
+}
+
 /// Execute `script` on a fresh machine. `auto`: continue fairly after the script (run to
 /// completion) and judge completeness. Violations go to `l` (case = instance + script).
 fn run(inst: &Inst, script: &[Choice], auto: Option<usize>, l: &mut Local) -> RunOut {
@@ -556,6 +635,9 @@ fn run(inst: &Inst, script: &[Choice], auto: Option<usize>, l: &mut Local) -> Ru
         errors_used: 0,
         nonprogress: 0,
         bad_script: None,
+        read_waker: None,
+        write_waker: None,
+        flush_waker: None,
     }));
     let (stream, handle): (TcpStream<SimTcp>, BufDnsStreamHandle) = TcpStream::from_stream(SimTcp(shared.clone()), peer());
     let mut mach = match inst.wrapper {
@@ -564,8 +646,12 @@ fn run(inst: &Inst, script: &[Choice], auto: Option<usize>, l: &mut Local) -> Ru
         Wrapper::Timeout => Machine::Timeout(TimeoutStream::new(stream, Duration::from_secs(360))),
     };
     let mut handle = Some(handle);
-    let waker = noop_waker();
+    let wc = Arc::new(WakeCount(AtomicUsize::new(0)));
+    let waker = Waker::from(wc.clone());
     let mut cx = Context::from_waker(&waker);
+    // wake-up bookkeeping: count at the start of the last poll, whether that poll returned Pending
+    let mut seen = 0usize;
+    let mut last_pending = false;
 
     let mut enq = 0usize;
     let mut yielded: Vec<Vec<u8>> = vec![];
@@ -582,6 +668,7 @@ fn run(inst: &Inst, script: &[Choice], auto: Option<usize>, l: &mut Local) -> Ru
 
     loop {
         let c = shared.lock().unwrap().next();
+        let from_script = c.is_some();
         let c = match c {
             Some(c) => c,
             None => match auto {
@@ -611,6 +698,12 @@ fn run(inst: &Inst, script: &[Choice], auto: Option<usize>, l: &mut Local) -> Ru
                             shared.lock().unwrap().bad_script = Some("handle.send failed".into());
                         }
                         enq += 1;
+                        if last_pending && !violated {
+                            // the handle's channel must wake the task (or another wake-up is pending)
+                            if let (false, Some(side)) = wake_check(&shared, &wc, seen, inst, enq, auto.is_some()) {
+                                viol(l, &format!("lost-wakeup:{side}"), "a message was handed over while the machine is Pending, progress is possible and no wake-up is pending", &mut violated);
+                            }
+                        }
                         continue;
                     }
                 }
@@ -627,8 +720,23 @@ fn run(inst: &Inst, script: &[Choice], auto: Option<usize>, l: &mut Local) -> Ru
                 break;
             }
         }
+        let woken = wc.0.load(Ordering::SeqCst) != seen;
+        if last_pending && !woken {
+            if from_script {
+                if inst.wake_driven {
+                    shared.lock().unwrap().bad_script = Some("poll without a wake-up in the wake-driven family".into());
+                    break;
+                }
+                // the scripted part of the other families polls by fiat (a legal spurious poll)
+            } else {
+                // run to completion is wake-driven: nobody would poll the task now
+                break;
+            }
+        }
         shared.lock().unwrap().flags = 0;
+        seen = wc.0.load(Ordering::SeqCst);
         let r = mach.poll(&mut cx);
+        last_pending = matches!(r, Poll::Pending);
         let (frozen, flags, consumed, accepted_ok) = {
             let s = shared.lock().unwrap();
             (s.frozen, s.flags, s.consumed, inst.out_image.starts_with(&s.accepted) && s.accepted.len() <= handed_len(inst, enq))
@@ -687,6 +795,11 @@ fn run(inst: &Inst, script: &[Choice], auto: Option<usize>, l: &mut Local) -> Ru
                     terminal = 2;
                 } else if flags & F_READ_PENDING != 0 && !after_zero && yielded.len() < complete {
                     viol(l, "read:message-withheld", &format!("{} messages delivered completely, {} yielded, and the machine waits for more input", complete, yielded.len()), &mut violated);
+                }
+                if !eof && !violated {
+                    if let (false, Some(side)) = wake_check(&shared, &wc, seen, inst, enq, auto.is_some()) {
+                        viol(l, &format!("lost-wakeup:{side}"), "the machine returned Pending, progress is possible on that side and no wake-up is pending or registered", &mut violated);
+                    }
                 }
                 if flags & F_IDLE != 0 {
                     idle_polls += 1;
@@ -791,6 +904,7 @@ fn run(inst: &Inst, script: &[Choice], auto: Option<usize>, l: &mut Local) -> Ru
         nonprogress,
         terminal,
         violated,
+        can_poll: !inst.wake_driven || !last_pending || wc.0.load(Ordering::SeqCst) != seen,
     }
 }
 
@@ -801,7 +915,9 @@ fn choices(inst: &Inst, o: &RunOut) -> Vec<Choice> {
     match o.point {
         Point::Terminal => {}
         Point::Driver => {
-            v.push(Choice::Poll);
+            if o.can_poll {
+                v.push(Choice::Poll);
+            }
             if o.alive && (o.enq as usize) < inst.out_msgs.len() {
                 v.push(Choice::Enqueue);
             }
@@ -1011,7 +1127,9 @@ fn main() {
          error. Write grid: every sequence of 1..3 outbound messages (same lengths) handed over at every possible driver point; at every \
          poll_write[_vectored]: Pending | every n in 1..=offered | I/O error; poll_flush: Ok | Pending | I/O error. Joint grid: inbound x \
          outbound sequences of 1..2 messages with lengths {{1,2,3}} incl. dropping the handle (thorough: + three pairs with 35..70-byte messages). Conformance grids: TcpClientStream and \
-         TimeoutStream<TcpStream> wrappers on the joint grid. Matching-free cross-run: every answer sequence of every stream of <= 12 \
+         TimeoutStream<TcpStream> wrappers on the joint grid. Wake-driven family (read / write / joint instances): the driver polls only \
+         after an item or when the recording waker was woken (the socket wakes the waker it was handed when it answered Pending, the \
+         handle's channel wakes on send); every run to completion is wake-driven too. Matching-free cross-run: every answer sequence of every stream of <= 12 \
          framed bytes without state matching must reach exactly the BFS key set. Big messages (65,535 / 32,768 bytes) with fixed chunk \
          sizes. From every state a fair run to completion is judged. Non-trivial = transitions with a short read/write or a Pending \
          strictly inside a frame, distinct by (instance, bytes consumed, bytes accepted, answer)."
@@ -1019,6 +1137,7 @@ fn main() {
     ctx.assume("vref::frame (RFC 1035 4.2.2 two-byte length framing) is the reference");
     ctx.assume("state-matching argument: the machine's future depends only on the canonical key; tested by the matching-free cross-run and the completion run from every state");
     ctx.assume("poll_write returning Ok(0) for a non-empty buffer is outside the alphabet (the statement quantifies over partial writes and would-block)");
+    ctx.assume("wake-up model: a consumer re-polls after every item (also after an error item); after Pending the task runs only when its waker was woken; the socket wakes a stored waker whenever it answered Pending before (it can always deliver / accept / complete something), except the read side once the inbound stream is used up in a run to completion");
     ctx.assume("after an I/O error answered by the socket the run continues (at most E errors per run, E in the evidence); a poll after a Pending is a legal spurious poll");
 
     let mut base = 0u32;
@@ -1100,11 +1219,37 @@ fn main() {
         do_grid(name, insts, &mut base);
     }
 
+    // wake-driven family: the driver polls only after an item or when the task's waker was woken
+    // (the environment wakes the waker it was handed when it answered Pending, the handle's
+    // channel wakes on send); Pending with progress possible and no wake-up pending = lost wake-up
+    {
+        let mut insts = vec![];
+        let wl: Vec<usize> = if quick { vec![1, 3] } else { vec![1, 2, 3] };
+        for s in sequences(&wl, 3) {
+            insts.push(Inst::new(format!("wake read{s:?}"), Wrapper::Plain, inbound_of(&s), &[], 1, false).wake(true));
+            insts.push(Inst::new(format!("wake write{s:?}"), Wrapper::Plain, vec![], &s, 1, false).wake(true));
+        }
+        for s in [vec![255usize], vec![2, 255]] {
+            insts.push(Inst::new(format!("wake read{s:?}"), Wrapper::Plain, inbound_of(&s), &[], 1, false).wake(true));
+            insts.push(Inst::new(format!("wake write{s:?}"), Wrapper::Plain, vec![], &s, 1, false).wake(true));
+        }
+        let js = if quick { sequences(&[1, 3], 2) } else { small.clone() };
+        for i in &js {
+            for o in &js {
+                insts.push(Inst::new(format!("wake joint in{i:?} out{o:?}"), Wrapper::Plain, inbound_of(i), o, 1, true).wake(true));
+            }
+        }
+        for w in [Wrapper::Client, Wrapper::Timeout] {
+            insts.push(Inst::new(format!("wake {w:?} in[2, 1] out[1, 3]"), w, inbound_of(&[2, 1]), &[1, 3], 1, true).wake(true));
+        }
+        do_grid("wake", insts, &mut base);
+    }
+
     // matching-free cross-run on short streams: E = I/O errors allowed per run
     {
         let mut insts = vec![];
         let framed = |s: &Vec<usize>| -> usize { s.iter().map(|l| l + 2).sum() };
-        let (r1, r0, w1, w0) = if quick { (9, 12, 6, 9) } else { (10, 13, 7, 9) };
+        let (r1, r0, w1, w0) = if quick { (8, 11, 6, 8) } else { (10, 13, 7, 9) };
         for s in sequences(&[1, 2, 3, 5, 8], 3) {
             let total = framed(&s);
             if total <= r1 {
@@ -1119,6 +1264,7 @@ fn main() {
             }
         }
         insts.push(Inst::new("x-joint in[1] out[1] E=0".into(), Wrapper::Plain, inbound_of(&[1]), &[1], 0, true));
+        insts.push(Inst::new("x-wake-joint in[1] out[1] E=0".into(), Wrapper::Plain, inbound_of(&[1]), &[1], 0, true).wake(true));
         if !quick {
             insts.push(Inst::new("x-joint in[1] out[1] E=1".into(), Wrapper::Plain, inbound_of(&[1]), &[1], 1, true));
             insts.push(Inst::new("x-joint in[2] out[1] E=0".into(), Wrapper::Plain, inbound_of(&[2]), &[1], 0, true));
